@@ -139,6 +139,23 @@ def bounded_segments(chk, seed, thorough):
             cases.append({"kind": "garbage-last-line", "text": text + g + "\n", "name": "a.c", "g": g})
             cases.append({"kind": "garbage-last-line-no-newline", "text": text + g, "name": "a.c", "g": g})
     cases.append({"kind": "conforming", "text": P.conforming_h(), "name": "a.h"})
+    # user type bodies: every line is one statement by construction; an unrecognisable statement
+    # after any enumerator / member (the last one included, with or without value) is fatal
+    for fname in ("a.h",):
+        hdr = P.header(fname).rstrip("\n").split("\n")
+        g = fname.upper().replace(".", "_")
+        for last in ("\tKEY_Z = 124", "\tKEY_Z", "\tKEY_Z = KEY_A | 4"):
+            body = ["\tKEY_A,", "\tKEY_B = 2,", "\tKEY_C = KEY_A | 2,", "\tKEY_D = (1 << 3),", "\tKEY_E = KEY_A ? 1 : 2,", last]
+            lines = hdr + ["", f"#ifndef {g}", f"# define {g}", "", "enum e_key", "{"] + body + ["};", "",
+                                                                                              "typedef struct s_pt", "{", "\tint\tx;", "\tint\ty;", "}\tt_pt;", "",
+                                                                                              "int\tft_fa(int c);", "", "#endif"]
+            text = "\n".join(lines) + "\n"
+            cases.append({"kind": "counted", "text": text, "name": fname, "want": len(lines), "shape": f"enum body ending in {last.strip()!r}"})
+            first = lines.index("{") + 1
+            for at in range(first + 1, first + len(body) + 1):
+                for junk in P.UNRECOGNISABLE[:2]:
+                    t2 = "\n".join(lines[:at] + ["\t" + junk] + lines[at:]) + "\n"
+                    cases.append({"kind": "unrecognisable", "text": t2, "name": fname, "g": junk, "at": at})
     # statement count known by construction (conforming or not): every body shape alone, last in
     # the function body, and in pairs
     names = list(P.SHAPES)
